@@ -28,9 +28,13 @@ def val(r, k):
     if k in ("u32", "u64", "uint", "uptr"):
         return str(r.choice([r.rng(0, 9), r.rng(0, 2**32 - 1)]))
     if k == "str":
-        return "s:" + r.choice(["", "a", "ab", "abc", "abcd", "hello", "k%04d" % r.rng(0, 50), "x" * r.rng(0, 11)])
+        # short keys, keys around small-buffer sizes (16, 32, 64 bytes) and long keys
+        return "s:" + r.choice(["", "a", "ab", "abc", "abcd", "hello", "k%04d" % r.rng(0, 50), "x" * r.rng(0, 11),
+                                "k" * r.choice([15, 16, 17, 31, 32, 33, 63, 64, 65]) + "%d" % r.rng(0, 9),
+                                "".join(r.choice("abcdefgh") for _ in range(r.rng(12, 90)))])
     if k == "bytes":
-        return "b:" + r.choice(["", "a", "abcde", "q%d" % r.rng(0, 99)])
+        return "b:" + r.choice(["", "a", "abcde", "q%d" % r.rng(0, 99), "z" * r.choice([31, 32, 33, 64, 65]),
+                                "".join(r.choice("abcdefgh") for _ in range(r.rng(12, 90)))])
     if k == "bool":
         return str(r.below(2))
     if k in ("f64", "f32"):
